@@ -110,7 +110,44 @@ def run(eng: Engine, ck: Check):
             dn_ = [n for y in disp_calls for n in crl.nodes_for(y)]
             rn_ = [n for n in crl.nodes_for(x)]
             hs_ = [n for n in crl.nodes if n.kind == 'handler' and any(n.ast is h for h in t.handlers)]
-            p_ = crl.find_path(hs_, lambda n: n in dn_, avoid=lambda n: n in rn_) if hs_ and dn_ else None
+            # a "this frame was received" flag: a local that is False at the top of every iteration, set True only right after the read (and
+            # nothing that can raise follows it inside the try), is False on every path that starts in an except arm and meets no new read:
+            # the branch of `if <flag>` / `if not <flag>` that needs it True is not on such a path
+            flags_ = set()
+            lp_ = next((a_ for a_ in ancestors(t) if isinstance(a_, (ast.While, ast.For, ast.AsyncFor))), None)
+            if lp_ is not None:
+                cand_ = {}
+                for n_ in walk_local(rl.node):
+                    if isinstance(n_, ast.Assign) and len(n_.targets) == 1 and isinstance(n_.targets[0], ast.Name):
+                        cand_.setdefault(n_.targets[0].id, []).append(n_)
+                    elif isinstance(n_, ast.Name) and isinstance(n_.ctx, (ast.Store, ast.Del)) and not any(isinstance(a_, ast.Assign) and n_ in a_.targets for a_ in walk_local(rl.node)):
+                        cand_.setdefault(n_.id, []).append(None)
+                for nm_, asg_ in cand_.items():
+                    if None in asg_ or not all(isinstance(a_.value, ast.Constant) and isinstance(a_.value.value, bool) for a_ in asg_):
+                        continue
+                    falses = [a_ for a_ in asg_ if a_.value.value is False]
+                    trues = [a_ for a_ in asg_ if a_.value.value is True]
+                    # reset: a direct statement of the loop body in front of the try
+                    reset_ok = any(a_ in lp_.body and t in lp_.body and lp_.body.index(a_) < lp_.body.index(t) for a_ in falses)
+                    # set: a direct statement of the try body, after the statement holding the read, followed only by statements that cannot raise
+                    def quiet(s_):
+                        return not any(isinstance(y_, (ast.Call, ast.Await, ast.Subscript, ast.Attribute, ast.BinOp, ast.Raise, ast.Yield)) for y_ in ast.walk(s_))
+                    read_i = next((i_ for i_, s_ in enumerate(t.body) if any(y_ is x for y_ in ast.walk(s_))), None)
+                    set_ok = bool(trues) and read_i is not None and all(
+                        a_ in t.body and t.body.index(a_) > read_i and all(quiet(s_) for s_ in t.body[t.body.index(a_) + 1:]) for a_ in trues)
+                    if reset_ok and set_ok:
+                        flags_.add(nm_)
+
+            def needs_flag_true(n):
+                if n.kind != 'assume' or n.ast is None:
+                    return False
+                e_ = n.ast
+                if isinstance(e_, ast.Name) and e_.id in flags_:
+                    return n.polarity is True
+                if isinstance(e_, ast.UnaryOp) and isinstance(e_.op, ast.Not) and isinstance(e_.operand, ast.Name) and e_.operand.id in flags_:
+                    return n.polarity is False
+                return False
+            p_ = crl.find_path(hs_, lambda n: n in dn_, avoid=lambda n: n in rn_ or needs_flag_true(n)) if hs_ and dn_ else None
             ck.ob('R-C02-ESCAPE', rl, t, 'a frame that could not be read or decoded delivers nothing: the dispatch is not reachable from an except arm of the read '
                   'without a new read in between', bool(dn_) and p_ is None,
                   f'the callback is reached from the handler via lines {crl.describe_path(p_, rl.where) if p_ else ""}: the previous message is delivered again '
